@@ -188,6 +188,16 @@ def check_proofs(report, prop, extra_targets=()):
             else:
                 discharged += 1
                 axioms_seen |= set(ax)
+    if res.ok and report.tier == "thorough":
+        # the toolchain's independent re-checker replays the compiled declarations of the property's modules in a fresh kernel
+        t0 = time.time()
+        try:
+            p = subprocess.run(["lake", "env", "leanchecker"] + prop_modules(prop), cwd=common.LEAN_DIR, stdout=subprocess.PIPE, stderr=subprocess.STDOUT, timeout=1800)
+            report.extra["leanchecker"] = {"exit": p.returncode, "wall_s": round(time.time() - t0, 1), "tail": p.stdout.decode(errors="replace")[-300:]}
+            if p.returncode != 0:
+                broken.append({"file": f"PycfModel/Props/{prop}.lean", "line": 0, "declaration": None, "message": "leanchecker rejected a compiled module: " + p.stdout.decode(errors="replace")[-200:]})
+        except subprocess.TimeoutExpired:
+            report.extra["leanchecker"] = {"exit": "timeout"}
     hits = forbidden_tokens()
     for h in hits:
         broken.append({"file": h.split(":")[0], "line": 0, "declaration": None, "message": "forbidden token: " + h})
